@@ -23,6 +23,10 @@ func (r *FragRule) RunPass(ctx *Context, pass Pass) {
 
 		hasDiscard := false
 		hasEmit := false
+
+		// The state machine stops interpreting actions at @discard and @emit, so
+		// they go last whatever the order in which the actions were written.
+		var lastActions []mode.Action
 		for _, actAST := range r.Actions {
 			act := actAST.GetAction()
 			switch act.Type {
@@ -34,6 +38,8 @@ func (r *FragRule) RunPass(ctx *Context, pass Pass) {
 					return
 				}
 				hasDiscard = true
+				lastActions = append(lastActions, act)
+				continue
 			case mode.ActionAccept:
 				if hasEmit {
 					ctx.Errs.Errorf(
@@ -42,9 +48,12 @@ func (r *FragRule) RunPass(ctx *Context, pass Pass) {
 					return
 				}
 				hasEmit = true
+				lastActions = append(lastActions, act)
+				continue
 			}
 			actions.Actions = append(actions.Actions, act)
 		}
+		actions.Actions = append(actions.Actions, lastActions...)
 
 		if !hasDiscard && !hasEmit {
 			actions.Actions = append(actions.Actions, mode.Action{
